@@ -8,7 +8,7 @@ The subset (anything else raises Untranslatable, which names the construct; the 
   statements   docstring, `x = e`, `x op= e`, if/elif/else, return e, raise Exc(...), `for x in e:` whose body is
                assignments only
   expressions  constants, locals, module-level constants (int / bytes / str / tuple, read from the imported module),
-               kwargs["name"], TABLE[e] for the payload tables and UBX_MSGIDS, e[a:b], e[i], a + b, a - b, a & b,
+               kwargs["name"], TABLE[e] for the payload tables and UBX_MSGIDS, e[a:b], e[i], a + b, a - b, a & b, a % b,
                len(e), bytes((a, b, ..)), val2bytes(e, T), bytes2val(e, T), calc_checksum(e), getinputmode(e),
                UBXMessage(...) (kept as an uninterpreted call), tuples, comparisons / and / or / not as values
   conditions   "name" in kwargs, e in (..), ==, !=, <, <=, >, >=, is None, is not None, and, or, not, truthiness
@@ -153,6 +153,9 @@ class FnTr:
     def E(self, e, env):
         if isinstance(e, ast.Constant):
             return [], lit(e.value)
+        if isinstance(e, ast.UnaryOp) and isinstance(e.op, ast.USub) and isinstance(e.operand, ast.Constant) \
+                and isinstance(e.operand.value, int) and not isinstance(e.operand.value, bool):
+            return [], lit(-e.operand.value)
         if isinstance(e, ast.Name):
             if e.id in env:
                 return [], "v_" + e.id
@@ -181,7 +184,7 @@ class FnTr:
         if isinstance(e, ast.Call):
             return self.call(e, env)
         if isinstance(e, ast.BinOp):
-            ops = {ast.Add: "g_add", ast.Sub: "g_sub", ast.BitAnd: "g_band"}
+            ops = {ast.Add: "g_add", ast.Sub: "g_sub", ast.BitAnd: "g_band", ast.Mod: "g_mod"}
             if type(e.op) not in ops:
                 raise Untranslatable("%s: operator %s" % (self.node.name, type(e.op).__name__))
             b1, a1 = self.E(e.left, env)
@@ -355,6 +358,15 @@ class FnTr:
             b, atoms = self.Es(c.args, env)
             return self.wrap(b, "let eff := (eff ++ [Call %s [%s] []])%%list in\n%s" % (
                 coq_str("super." + c.func.attr), "; ".join(atoms), k(env)))
+        if isinstance(s, ast.Assign) and len(s.targets) > 1 and all(isinstance(t, ast.Name) for t in s.targets):
+            b, a = self.E(s.value, env)
+            names = [t.id for t in s.targets]
+            if self.kwarg in names:
+                raise Untranslatable("%s: kwargs reassigned" % self.node.name)
+            body = k(env | set(names))
+            for nm in reversed(names):
+                body = "let v_%s := %s in\n%s" % (nm, a, body)
+            return self.wrap(b, body)
         if isinstance(s, (ast.Assign, ast.AugAssign)):
             name, b, a = self.assign(s, env)
             return self.wrap(b, "let v_%s := %s in\n%s" % (name, a, k(env | {name})))
